@@ -224,7 +224,7 @@ pub fn check(sc: &Scene, obs: &mut Obs) -> Check {
 
 pub fn run(cx: &mut Ctx) {
     cx.assume("numeric domain of the property: far/near <= 1000, |view coordinate| <= 1000 x near, focal ratio 0.1..10, near 1e-2..1e2");
-    let n = cx.n(120_000, 5_000_000);
+    let n = cx.n(500_000, 10_000_000);
     let mt = cx.tier.pick(6, 8);
     cx.prop_check("soups", n, move || scene_strategy(mt), |c, obs| check(c, obs));
 }
